@@ -5,6 +5,7 @@ CONSTANTS
   Hosted = {0, 1, 2}
   Vals = {1, 2}
   NsOf <- MCNs
+  Refused = {}
   RouteMulti = "firstkey"
   OwnerShift = 0
   RejectUnhosted = TRUE
